@@ -54,13 +54,21 @@ CLAIMED = {
   'note': 'Trusted: Verus/Z3, vstd, stubs for FeelNumber and chrono; closure lifting R4 and RefCell erasure R8. Not decided: closure wiring (build_evaluator), arithmetic closures (pending), '
           'function definition/invocation, filters, paths, for/some/every result assembly, determinism.',
  },
+ 'C08': {
+  'text': 'Partial. Verus proves on the real bodies, for all lists, strings and positions: sublist (2 and 3 arguments), substring (characters, 1-based, negative from the end), insert before, remove, reverse, '
+          'count, index of (sound and complete), list contains, append, all and not return exactly the specified value on their domain and null outside it, with no overflow for extreme positions/lengths; '
+          'and for 34 built-ins that the positional wrapper handles exactly the legal arities and that the named wrapper passes the standard\'s parameter names in the standard\'s order to the same core '
+          'function (named invocation = positional invocation; contracts generated from a table of DMN signatures). Known finding replayed each run: any().',
+  'design_ref': 'DESIGN.md section 5 C08',
+  'note': 'Trusted: Verus/Z3, vstd; FeelNumber predicates/conversions as stated stubs; String char iteration stubs; core functions uninterpreted in the dispatch unit. Not decided: regex/conversion/aggregate functions, sort, flatten/union/distinct values.',
+ },
 }
 NOT_APPLICABLE = {
  'C02': TODO, 'C03': TODO,
  'C04': 'the property is about dyn Fn closures stored in RwLock<HashMap> registries calling one another along the requirement graph; no first-order function carries it, Verus has no support for dyn Fn fields / std RwLock guards, Kani cannot bound the graph (DESIGN.md section 6)',
  'C05': TODO, 'C06': TODO,
  'C07': 'deciding code is str/format!/C decNumber string conversion (scientific_to_plain, decQuadToString); Verus has no specs for these str APIs and Kani/CBMC did not finish a 3-character instance in 15 min (DESIGN.md section 6)',
- 'C08': TODO, 'C10': TODO, 'C11': TODO, 'C12': TODO, 'C13': TODO,
+ 'C10': TODO, 'C11': TODO, 'C12': TODO, 'C13': TODO,
  'C18': TODO, 'C19': TODO,
  'C20': 'a schedule property: Kani has no thread support and Verus would need the code rewritten onto its own permission/atomic types; Send+Sync is checked by rustc, not by this family (DESIGN.md section 6)',
 }
